@@ -27,7 +27,7 @@ UNITS = ['plain', 'Hz', 'kHz', 'MHz', 'GHz', 'npscalar']
 def required(tier):
     b = {f'route:{r}': 3 for r in ROUTES}
     b.update({f'units:{u}': 3 for u in UNITS})
-    b.update({'orient:asc': 10, 'orient:desc': 10, 'twin': 5, 'df:negative-argument': 10, 'history:retimed': 20,
+    b.update({'orient:asc': 10, 'orient:desc': 10, 'twin': 5, 'same-numbers-other-flag': 100, 'df:negative-argument': 10, 'history:retimed': 20,
               'history:phased-time-profile': 20, 'history:smeared-injection': 20})
     return {'buckets': b, 'counters': {'invariant_evals': 100, 'roundtrip_channels': 1000}, 'checks': 500}
 
@@ -322,6 +322,18 @@ def _check_frame(stg, c, fr, R, rng):
         for k in (-3, n + 2):
             got_j = fr.get_index(float(fr.fmin) + k * fr.df)
             R.check(int(got_j) == k, 'get_index-outside-band', k=k, got=int(got_j))
+    # the same NUMBERS with the other flag describe another band (fch1 is then the other edge): whatever the library remembers
+    # about grids it has built must not leak between the two, in either order
+    if n * m <= 300000 and c['route'] != 'backend':
+        R.bucket('same-numbers-other-flag')
+        opp = build(stg, c, asc=not c['asc'])
+        prob = axes_problem(opp)
+        R.check(prob is None, 'other-flag-same-numbers:' + (prob[0] if prob else 'axes'), **(prob[1] if prob else {}))
+        R.check((opp.fmin == opp.fch1) if not c['asc'] else (opp.fmax == opp.fch1), 'other-flag-same-numbers:fch1-edge',
+                fmin=float(opp.fmin), fmax=float(opp.fmax), fch1=float(opp.fch1))
+        again = build(stg, c)
+        R.check(np.array_equal(again.fs, fr.fs) and again.fmin == fr.fmin and again.fmax == fr.fmax,
+                'same-arguments-after-other-flag-frame-give-another-grid')
     # opposite-orientation twin: same band, other flag
     if n * m <= 300000 and rng.random() < 0.5 and c['route'] != 'backend':
         R.bucket('twin')
